@@ -44,7 +44,8 @@ theorem range_headn_facts (r : Range) (l : Nat) (hne : Range.isEmpty (Range.head
 theorem calc_cases {head limit : Nat} {synced : Ranges} {r : Range} (hi : RInv synced)
     (h : calculateRangeToFetch head synced limit = .ok r) (hne : Range.isEmpty r = false) :
     1 ≤ r.1 ∧ r.1 ≤ r.2 ∧
-      (((∀ x, mem synced x → x < r.1) ∧ r.2 ≤ head) ∨ mem synced (r.2 + 1)) := by
+      (((∀ x, mem synced x → x < r.1) ∧ r.2 ≤ head ∧ (synced = [] ∨ mem synced (r.1 - 1))) ∨
+        mem synced (r.2 + 1)) := by
   have hle : r.1 ≤ r.2 := by simpa [Range.isEmpty] using hne
   rcases List.eq_nil_or_concat synced with rfl | ⟨ys, hd, rfl⟩
   · -- nothing synced
@@ -53,7 +54,7 @@ theorem calc_cases {head limit : Nat} {synced : Ranges} {r : Range} (hi : RInv s
     subst h
     obtain ⟨h1, h2⟩ := range_tailn_facts _ _ hne
     simp only [] at h1 h2
-    exact ⟨by omega, hle, Or.inl ⟨fun x hx => absurd hx (mem_nil x), h2⟩⟩
+    exact ⟨by omega, hle, Or.inl ⟨fun x hx => absurd hx (mem_nil x), h2, Or.inl rfl⟩⟩
   · simp only [List.concat_eq_append] at hi h ⊢
     have hvhd := inv_validR hi (r := hd) (by simp)
     have hmax : ∀ x, mem (ys ++ [hd]) x → x ≤ hd.2 := by
@@ -70,8 +71,10 @@ theorem calc_cases {head limit : Nat} {synced : Ranges} {r : Range} (hi : RInv s
         subst h
         obtain ⟨h1, h2⟩ := range_tailn_facts _ _ hne
         simp only [] at h1 h2
-        refine ⟨by omega, hle, Or.inl ⟨fun x hx => ?_, h2⟩⟩
-        have := hmax x hx; omega
+        refine ⟨by omega, hle, Or.inl ⟨fun x hx => ?_, h2, Or.inr ?_⟩⟩
+        · have := hmax x hx; omega
+        · rw [h1]
+          exact ⟨hd, by simp, by have := hvhd.2.1; omega, by omega⟩
       · simp [hov] at h
     · -- caught up: the range ends right below the highest synced range
       simp only [hlt, ↓reduceIte, addU64, bind, Except.bind] at h
@@ -197,7 +200,7 @@ theorem fetch_request_spec_gen {pc : Bool} {slowMin : Nat} {i : GateIn} {old : N
   intro x hx hbx
   simp only [] at hx ⊢
   have hxs : mem synced x := (hcm x).2 (hx.symm)
-  rcases hshape with ⟨habove, _⟩ | hbound
+  rcases hshape with ⟨habove, _, _⟩ | hbound
   · -- the batch lies above everything synced
     have := habove x hxs
     omega
@@ -419,7 +422,7 @@ theorem fetch_total {pc : Bool} {slowMin : Nat} {i : GateIn}
     simp only []
     have hle : nb.2 + 1 ≤ U64_MAX := by
       obtain ⟨_, _, hshape⟩ := calc_cases hci hcalc (by simpa using hne)
-      rcases hshape with ⟨_, h2⟩ | hm
+      rcases hshape with ⟨_, h2, _⟩ | hm
       · omega
       · exact (mem_bounds hci hm).2
     simp only [addU64, hle, ↓reduceIte]
